@@ -54,3 +54,7 @@ check("C17", "fault_enumeration", "fault injection (all truncation points, tag/l
       "Reference encodings of generated values are damaged systematically: every truncation point of every sampled encoding, single-byte corruption of tag/length bytes, well-formed records with a substituted wire type before/after the genuine occurrence, field-number-0 and wire-type-6/7 tags, groups around known and unknown numbers; plus random byte strings. Each decode must raise or return a type-correct, re-encodable message; mid-record prefixes and invalid tags must raise; mismatches and groups must not alter known fields and mismatches must be kept as unknown fields. The reference's accept/reject decision is tabulated.",
       "Encodings are sampled, truncation points per encoding are exhaustive; which mismatches must be kept as unknown is decided by the reference decoder.",
       "DESIGN.md 3/C17")
+check("C19", "exploration", "exhaustive identifier enumeration + keyword/real-world corpora + Hypothesis identifiers vs validity / idempotence / inverse-mapping oracle",
+      "Every legal proto identifier up to length 5 (quick) / 6 (thorough) over {a,b,A,B,1,_}, all Python keywords / soft keywords / builtins and a real-world name corpus are mapped through the four pythonize_* functions (valid identifier, not a keyword, idempotent) and through a real message class: the camelCase key, the snake_case key and the proto name must all be mapped back to the field by from_dict / from_json.",
+      "Exhaustive on the enumerated identifier space (legality sampled against protoc in quick, complete in thorough); classes are built with the public field API.",
+      "DESIGN.md 3/C19")
